@@ -1,17 +1,103 @@
-"""C13 -- Buffer layer."""
+"""C13 -- Buffer layer, plus long-lived match-mappings probed through the library's own lookup paths."""
 import p_buffer_common as bc
+from core import mk, bits_of, L, R, rng_for, randbits, impl_outcome, raw, Driver
 
 RULE = ('cases enumerate (operation x padding side of every operand x bit length residue mod 8 x content class) '
         'with all-ones, alternating and random contents, plus random long operands; a case is distinct by '
         '(operation, operand bits and sides, parameters); every case is non-trivial in that it executes the '
-        'operation on the implementation, on the extracted Coq model and on the bit-sequence oracle')
+        'operation on the implementation, on the extracted Coq model and on the bit-sequence oracle; '
+        'mapping programs probe one long-lived MatchMapping many times (match-mapping operator, mapping-sent action, '
+        'reverse lookup) with values of both padding sides, among them pairs of different values whose stored bytes coincide')
 ASSUMPTIONS = ['operands are canonical Buffers built by the constructor (the property quantifies over bit strings)',
                'Buffer theorems are about the byte-level Gallina model coq/theories/Buffer.v; its tie to buffer.py is this run\'s correspondence']
 
 
+_rawtok = raw
+
+
+def same_bytes_other_side(v):
+    """the bit string which, padded on the right, is stored in the same bytes as v padded on the left"""
+    n = len(v)
+    pad = (8 - n % 8) % 8
+    return ('0' * pad + v)[:n]
+
+
+def mapping_programs(rep, rnd, tier):
+    from microschc.rfc8724 import MatchMapping, FieldDescriptor
+    from microschc.matching.operators import match_mapping
+    from microschc.actions.compression import mapping_sent
+    nprog = 60 if tier == 'quick' else 900
+    lines, meta = [], []
+    for pi in range(nprog):
+        n = rnd.choice([1, 2, 3, 4, 5, 6, 7, 9, 10, 12, 13, 15, 17, 20, 31])
+        k = rnd.randint(1, 6)
+        vals = []
+        while len(vals) < k:
+            v = randbits(rnd, rnd.choice([n, n, n, n + 1, max(1, n - 1)]))
+            if v not in vals:
+                vals.append(v)
+        keys = [mk(v, rnd.choice([L, R])) for v in vals]
+        idxw = max(1, (k - 1).bit_length())
+        idx = [format(i, '0%db' % idxw) for i in range(k)]
+        mapping = MatchMapping({kb: mk(ix, rnd.choice([L, R])) for kb, ix in zip(keys, idx)})
+        probes = []
+        for v in vals:
+            w = same_bytes_other_side(v)
+            probes += [(v, L), (w, R), (v, R), (w, L)]
+        for _ in range(6):
+            v = randbits(rnd, rnd.choice([n, n + 1]))
+            probes += [(v, rnd.choice([L, R])), (same_bytes_other_side(v), rnd.choice([L, R]))]
+        rnd.shuffle(probes)
+        for step, (pv, sd) in enumerate(probes):
+            probe = mk(pv, sd)
+            fd = FieldDescriptor(id='x', value=probe, position=0)
+            member = pv in vals
+            got_in = impl_outcome(lambda: match_mapping(fd, mapping))
+            got_fw = impl_outcome(lambda: bits_of(mapping_sent(fd, mapping)))
+            want_fw = ('OK', idx[vals.index(pv)]) if member else ('EXC', 'KeyError')
+            rep.count('mapping-program:%s:%s' % ('member' if member else 'absent', 'L' if sd is L else 'R'), key=('mp', pi, step))
+            rep.oracle_evals += 1
+            case = dict(layer='mapping-program', keys=[(v, 'L' if kb.padding is L else 'R') for v, kb in zip(vals, keys)], probe=[pv, 'L' if sd is L else 'R'], step=step,
+                        probes_before=[[a, 'L' if b is L else 'R'] for a, b in probes[:step]])
+            if got_in != ('OK', member):
+                rep.violation('property', 'match_mapping on a long-lived mapping: value %s (%s padded) %s one of the mapped values %s, got %r'
+                              % (pv, 'left' if sd is L else 'right', 'is' if member else 'is not', vals, got_in), case)
+            if got_fw != want_fw:
+                rep.violation('property', 'mapping_sent on a long-lived mapping: value %s (%s padded), expected %r, got %r' % (pv, 'left' if sd is L else 'right', want_fw, got_fw), case)
+            lines.append('B indict %s %s' % (_rawtok(probe), ' '.join(_rawtok(kb) for kb in keys)))
+            meta.append((case, vals.index(pv) if member else -1))
+        # reverse lookups (index -> value) with indices of both sides
+        for i, ix in enumerate(idx):
+            for sd in (L, R):
+                got = impl_outcome(lambda: bits_of(mapping.reverse[mk(ix, sd)]))
+                rep.count('mapping-program:reverse', key=('mpr', pi, i, sd))
+                if got != ('OK', vals[i]):
+                    rep.violation('property', 'reverse lookup of index %s (%s padded): expected %s, got %r' % (ix, sd, vals[i], got),
+                                  dict(layer='mapping-program', keys=vals, index=ix))
+    outs = Driver().run(lines)
+    rep.model_evals = getattr(rep, 'model_evals', 0) + len(lines)
+    for (case, want), o in zip(meta, outs):
+        if o.strip() != 'OK %d' % want:
+            rep.violation('correspondence', 'dict model gives %s for a probe the bit-level oracle places at %d' % (o, want), case)
+
+
 def run(rep, tier, seed):
     bc.run_family(rep, 'C13', tier, seed)
+    mapping_programs(rep, rng_for(seed, 'C13-mapping-programs'), tier)
 
 
 def replay(case):
+    if case.get('layer') == 'mapping-program':
+        from microschc.rfc8724 import MatchMapping, FieldDescriptor
+        from microschc.matching.operators import match_mapping
+        sd = {'L': L, 'R': R}
+        keys = case['keys']
+        if 'probe' not in case:
+            return 're-run ./check C13'
+        m = MatchMapping({mk(v, sd[s]): mk(format(i, 'b')) for i, (v, s) in enumerate(keys)})
+        for pv, s in case['probes_before'] + [case['probe']]:
+            got = match_mapping(FieldDescriptor(id='x', value=mk(pv, sd[s]), position=0), m)
+            if got != (pv in [v for v, _ in keys]):
+                return 'match_mapping(%s %s) = %r' % (pv, s, got)
+        return None
     return bc.replay(case)
